@@ -236,7 +236,16 @@ def rand_values(rng, er, n, histories=False):
         def coord():
             return rng.choice([rng.randint(-2, 7), round(rng.uniform(-1.5, 6.5), 2),
                                0, 1, 2.5, 4, 6, 6.0])
-        if dom[1] == "1d":
+        if dom[1] in ("1dgeo", "1ddec"):
+            # strongly non-uniform meshes; values on edges, just beside them and in between
+            edges = HIST_EDGES[dom[1]]
+
+            def gcoord():
+                e = rng.choice(edges)
+                return rng.choice([e, e, e * (1 + 2 ** -40), e * (1 - 2 ** -40), e * 1.5,
+                                   rng.uniform(edges[0] / 2, edges[-1] * 1.1)])
+            datas = [gcoord() for _ in range(n)]
+        elif dom[1] == "1d":
             datas = [coord() for _ in range(n)]
         else:
             datas = [[coord(), coord()] for _ in range(n)]
@@ -247,8 +256,18 @@ def rand_values(rng, er, n, histories=False):
         c = None
         if dom == "groupby":
             gb = er[1]
-            if gb in ("k", "n.k") or with_ctx != "none":
+            if gb in ("k", "n.k", "cuts") or with_ctx != "none":
                 c = {"i": i, "k": rng.randint(0, 2), "n": {"k": rng.randint(0, 1)}}
+                if gb == "cuts" or rng.random() < 0.4:
+                    # a list of dictionaries; equal ones are written with their keys in
+                    # different orders
+                    cut = [("variable", "e"), ("min", rng.randint(0, 1)), ("unit", "MeV")]
+                    rng.shuffle(cut)
+                    c["cuts"] = [dict(cut)]
+                    if rng.random() < 0.4:
+                        second = [("variable", "t"), ("max", 5)]
+                        rng.shuffle(second)
+                        c["cuts"].append([dict(second), rng.randint(0, 1)])
         elif with_ctx == "all" or (with_ctx == "some" and rng.random() < 0.6):
             c = rand_ctx(rng, i, scale=scale and rng.random() < 0.7)
         out.append({"d": d, "c": c})
@@ -256,13 +275,15 @@ def rand_values(rng, er, n, histories=False):
 
 
 # ------------------------------------------------------------------ element recipes
-HIST_EDGES = {"1d": [0, 1, 2.5, 4, 6], "2d": [[0, 1, 2.5, 4], [0, 2, 6]]}
+HIST_EDGES = {"1d": [0, 1, 2.5, 4, 6], "2d": [[0, 1, 2.5, 4], [0, 2, 6]],
+              "1dgeo": [2 ** i for i in range(17)],
+              "1ddec": [10.0 ** i for i in range(-6, 7)]}
 
 
 def hist_initial(edges_kind, variant):
     """Initial bins of the model for a Histogram variant."""
-    if edges_kind == "1d":
-        shape = [4]
+    if edges_kind.startswith("1d"):
+        shape = [len(HIST_EDGES[edges_kind]) - 1]
     else:
         shape = [3, 2]
     if variant == "default":
@@ -347,7 +368,8 @@ def build(er, default_start=False):
             return lena.structures.Histogram(edges, bins=hist_initial(er[1], "bins"))
         if v == "make_bins":
             return lena.structures.Histogram(
-                edges, make_bins=_make_bins_1d if er[1] == "1d" else _make_bins_2d)
+                edges, make_bins=(lambda kind=er[1]: hist_initial(kind, "make_bins"))
+                if er[1].startswith("1d") else _make_bins_2d)
         raise AssertionError(er)
     if k == "graph":
         return lena.structures.Graph(sort=True) if er[1] else lena.structures.Graph(sort=False)
@@ -415,9 +437,9 @@ def rand_elem(rng, for_history=False):
         return ["store", rng.random() < 0.5]
     if k == "groupby":
         return rng.choice([["groupby", "", ""], ["groupby", "k", ""], ["groupby", "n.k", ""],
-                           ["groupby", "", "i"]])
+                           ["groupby", "", "i"], ["groupby", "", "i"], ["groupby", "cuts", ""]])
     if k == "hist":
-        return ["hist", rng.choice(["1d", "1d", "2d"]),
+        return ["hist", rng.choice(["1d", "1d", "2d", "1dgeo", "1ddec"]),
                 rng.choice(["default", "default", "initial_value", "bins", "make_bins"])]
     if k == "graph":
         return ["graph", rng.random() < 0.6]
@@ -829,6 +851,8 @@ def expect(er, vals, values=None):
                 key = gen.freeze({a: b for a, b in c.items() if a != merge})
             elif gb == "k":
                 key = c["k"]
+            elif gb == "cuts":
+                key = gen.freeze(c["cuts"])
             else:
                 key = c["n"]["k"]
             key = repr(key)
@@ -847,7 +871,7 @@ def expect(er, vals, values=None):
         bins = hist_initial(er[1], er[2])
         oor = 0
         for x in xs:
-            if er[1] == "1d":
+            if er[1].startswith("1d"):
                 i = bisect.bisect_right(edges, x) - 1
                 if 0 <= i < len(bins):
                     bins[i] += 1
@@ -1093,3 +1117,7 @@ def run_case(r, obs):
 
 
 RULE += (' Sum and Mean are also filled with Decimal, Fraction and bool data; Vectorize components include a multi-result StoreFilled; results are consumed by a streaming consumer that changes every received context in place (except StoreFilled / GroupBy, whose results are the filled values).')
+RULE += (' GroupBy is also filled with contexts holding lists of dictionaries whose equal copies '
+         'have their keys in different orders (grouped by that item or by the whole context); '
+         'Histogram also has geometric (2**0..2**16) and decade (1e-6..1e6) meshes filled with '
+         'values on, just beside and between the edges.')
